@@ -74,11 +74,35 @@ class CallMixin:
             return Sym("attr", base, attr)
         return Sym("attr", base, attr)
 
+    def find_property(self, cls: str, attr: str):
+        """(class info, getter, setter) of a property defined with @property / @<name>.setter in the class or its bases"""
+        for q in self.repo.mro(cls):
+            ci = self.repo.classes.get(q)
+            if ci is None:
+                continue
+            getter = setter = None
+            for n, d in ci.all_defs:
+                if n != attr or not isinstance(d, (ast.FunctionDef, ast.AsyncFunctionDef)):
+                    continue
+                decos = [ast.unparse(x) for x in d.decorator_list]
+                if "property" in decos or "functools.cached_property" in decos or "cached_property" in decos:
+                    getter = d
+                elif f"{attr}.setter" in decos:
+                    setter = d
+            if getter is not None or setter is not None:
+                return ci, getter, setter
+            if any(n == attr for n, _ in ci.all_defs):
+                return None
+        return None
+
     def obj_attr(self, obj: ObjV, attr: str, module: Module, node=None) -> V:
         if attr in obj.attrs:
             return obj.attrs[attr]
         if attr == "__class__":
             return RefV(obj.cls)
+        prop = self.find_property(obj.cls, attr)
+        if prop is not None and prop[1] is not None:
+            return self.call_function(prop[0].module, prop[1], [obj], {}, prop[0].qual)
         r = self.repo.lookup_attr(obj.cls, attr)
         if r is not None:
             ci, d = r
@@ -770,6 +794,10 @@ class CallMixin:
         fields = {n: fields[n] for n in names}
         nn = NewNode(kind, fields, self.cur_where)
         self.event("new_node", node=nn)
+        post = self.repo.lookup_method(AST_PREFIX + kind, "__post_init__")
+        if post is not None and len(self.stack) < self.inline_depth + 2:
+            # the generated __init__ of a dataclass ends by calling __post_init__: validations there can refuse the node
+            self.call_function(post[0].module, post[1], [nn], {}, post[0].qual)
         return nn
 
     def instantiate(self, q: str, args, kwargs, module, node) -> V:
@@ -1044,6 +1072,14 @@ class CallMixin:
             return Sym("super", selfv, cls)
         if name == "next":
             v = a[0] if a else NONE
+            if isinstance(v, PyList) and not v.loop_parts and getattr(v, "created_in", None) is not None:
+                # next(<generator expression over concrete items>): its first element, or StopIteration / the default
+                if v.items:
+                    return v.items[0]
+                if len(a) >= 2:
+                    return a[1]
+                self.may_raise("builtins.StopIteration", "next(<empty generator>)", definite=True)
+                raise _Raise(self.make_exc("builtins.StopIteration"), self.cur_where)
             if isinstance(v, Sym) and v.op == "iter":
                 src = v.args[0]
                 items = self.concrete_items(src)
